@@ -415,6 +415,9 @@ Definition expectation_ok (evs dels : list event) (x : sx) : bool :=
         negb (existsb (fun e => match e with
                                 | EData _ tm _ _ | EDelivery _ tm _ _ => is_eof tm
                                 | _ => false end) (evs ++ dels))
+      else if sx_is "one-logout" t then
+        (* exactly one session was created and it was logged out exactly once *)
+        (List.length (filter (fun e => match e with ELogout => true | _ => false end) evs) =? 1)%nat
       else if sx_is "expect-helo-plain" t then
         (* the reply to HELO is the single line "250 2.0.0 Hello <domain>" *)
         existsb (fun l => is_prefix (bs "250 2.0.0 Hello ") l) (wire_lines (all_wire evs))
